@@ -214,7 +214,7 @@ func (c *c12Child) runTail(cs *c12Case) c12Outcome {
 	before := c12Census()
 	o := c12Outcome{ID: cs.ID}
 	u := "ws://" + srv.Listener.Addr().String() + cs.Path
-	d := websocket.Dialer{HandshakeTimeout: 3 * time.Second}
+	d := websocket.Dialer{HandshakeTimeout: c12Slow * 3 * time.Second}
 	con, resp, err := d.Dial(u, nil)
 	if resp != nil {
 		o.Status = resp.StatusCode
@@ -222,16 +222,16 @@ func (c *c12Child) runTail(cs *c12Case) c12Outcome {
 	if err != nil {
 		// refused before the upgrade (bad query, …): still a request whose goroutines must be gone
 		o.Outcome = "answered"
-		c.settleCensus(before, db, &o, 2500*time.Millisecond)
+		c.settleCensus(before, db, &o, c12Slow*2500*time.Millisecond)
 		return o
 	}
 	got := 0
 	t0 := time.Now()
 	for got < cs.GoneAfter {
-		if cs.GoneAfter >= 1000 && time.Since(t0) > 2500*time.Millisecond {
+		if cs.GoneAfter >= 1000 && time.Since(t0) > c12Slow*2500*time.Millisecond {
 			break
 		}
-		con.SetReadDeadline(time.Now().Add(4 * time.Second))
+		con.SetReadDeadline(time.Now().Add(c12Slow * 4 * time.Second))
 		_, msg, err := con.ReadMessage()
 		if err != nil {
 			break
@@ -251,7 +251,7 @@ func (c *c12Child) runTail(cs *c12Case) c12Outcome {
 		o.Outcome = "flood"
 		o.Dump = fmt.Sprintf("%d websocket messages with %d payload bytes in total received in %d ms", got, o.BodyBytes, time.Since(t0).Milliseconds())
 		con.UnderlyingConn().Close()
-		c.settleCensus(before, db, &o, 3500*time.Millisecond)
+		c.settleCensus(before, db, &o, c12Slow*3500*time.Millisecond)
 		return o
 	}
 	if cs.WriteErr {
@@ -263,7 +263,7 @@ func (c *c12Child) runTail(cs *c12Case) c12Outcome {
 	}
 	o.Outcome = "aborted-by-client"
 	// the tail's loops look at their tickers once a second: the settling window is wider here
-	c.settleCensus(before, db, &o, 3500*time.Millisecond)
+	c.settleCensus(before, db, &o, c12Slow*3500*time.Millisecond)
 	return o
 }
 
